@@ -265,12 +265,15 @@ theorem fieldCore_complete {c : Cfg} {name : Str} {tag : Option Str} {isSlice : 
       by_cases hk : key = "-".toList
       · exact ⟨z, by simp [hk]⟩
       · simp only [hk, decide_false, Bool.false_or, Bool.and_eq_true, Bool.not_eq_true'] at hrest
-        obtain ⟨⟨ho, hdot⟩, hval⟩ := hrest
+        obtain ⟨ho, hval⟩ := hrest
         rw [if_neg hk, hout, ho]
-        simp only [Bool.false_eq_true, if_false, hdot]
-        cases hg : getKey key m with
+        simp only [Bool.false_eq_true, if_false]
+        cases hl : lookupKey c key m with
+        | error e => simp [hl] at hval
+        | ok lk =>
+        cases lk with
         | none =>
-          simp only [hg] at hval ⊢
+          simp only [hl] at hval ⊢
           rw [hdef]
           by_cases hd : (effOpts po).default = []
           · have hval' : declOptional (effOpts po) m = true ∨ okAbs = true := by simpa [hd] using hval
@@ -285,7 +288,7 @@ theorem fieldCore_complete {c : Cfg} {name : Str} {tag : Option Str} {isSlice : 
             rw [if_pos hd]
             exact hdv _ hval'
         | some j0 =>
-          simp only [hg, hc, Bool.false_and, Bool.false_eq_true, if_false] at hval ⊢
+          simp only [hl, hc, Bool.false_and, Bool.false_eq_true, if_false] at hval ⊢
           cases hj : fromArrayValue c isSlice j0 with
           | null =>
             simp only [hj] at hval ⊢
@@ -337,7 +340,7 @@ theorem okTy_complete (c : Cfg) (hc : c.pinned = false) :
     unfold okTy at h
     unfold withValue
     cases j with
-    | arr l => exact slice_complete (fun j hj => okElem_complete c hc t j hj) h
+    | arr l => exact slice_complete (c := c.top) (fun j hj => okElem_complete c.top (Cfg.top_pinned hc) t j hj) h
     | null => simp at h
     | bool b => simp at h
     | num s => simp at h
@@ -348,7 +351,7 @@ theorem okTy_complete (c : Cfg) (hc : c.pinned = false) :
     unfold withValue
     cases j with
     | obj m =>
-      exact exists_map _ (allEntries_mapEntries (fun j hj => okMapElem_complete c hc t j hj) (canonObj m) h)
+      exact exists_map _ (allEntries_mapEntries (fun j hj => okMapElem_complete c.top (Cfg.top_pinned hc) t j hj) (canonObj m) h)
     | null => simp at h
     | bool b => simp at h
     | num s => simp at h
@@ -386,7 +389,7 @@ theorem okElem_complete (c : Cfg) (hc : c.pinned = false) :
     unfold okElem at h
     unfold elemValue
     cases j with
-    | arr l => exact slice_complete (fun j hj => okElem_complete c hc t j hj) h
+    | arr l => exact slice_complete (c := c.top) (fun j hj => okElem_complete c.top (Cfg.top_pinned hc) t j hj) h
     | null => simp at h
     | bool b => simp at h
     | num s => simp at h
@@ -397,7 +400,7 @@ theorem okElem_complete (c : Cfg) (hc : c.pinned = false) :
     unfold elemValue
     cases j with
     | obj m =>
-      exact exists_map _ (allEntries_mapEntries (fun j hj => okMapElem_complete c hc t j hj) (canonObj m) h)
+      exact exists_map _ (allEntries_mapEntries (fun j hj => okMapElem_complete c.top (Cfg.top_pinned hc) t j hj) (canonObj m) h)
     | null => simp at h
     | bool b => simp at h
     | num s => simp at h
@@ -437,7 +440,7 @@ theorem okMapElem_complete (c : Cfg) (hc : c.pinned = false) :
     unfold okMapElem at h
     unfold mapElemValue
     cases j with
-    | arr l => exact slice_complete (fun j hj => okElem_complete c hc t j hj) h
+    | arr l => exact slice_complete (c := c.top) (fun j hj => okElem_complete c.top (Cfg.top_pinned hc) t j hj) h
     | null => simp at h
     | bool b => simp at h
     | num s => simp at h
@@ -448,7 +451,7 @@ theorem okMapElem_complete (c : Cfg) (hc : c.pinned = false) :
     unfold mapElemValue
     cases j with
     | obj m =>
-      exact exists_map _ (allEntries_mapEntries (fun j hj => okMapElem_complete c hc t j hj) (canonObj m) h)
+      exact exists_map _ (allEntries_mapEntries (fun j hj => okMapElem_complete c.top (Cfg.top_pinned hc) t j hj) (canonObj m) h)
     | null => simp at h
     | bool b => simp at h
     | num s => simp at h
@@ -470,7 +473,7 @@ theorem okAbsent_complete (c : Cfg) (hc : c.pinned = false) :
     | ok b =>
       cases b with
       | true => simp [hr] at h
-      | false => exact exists_map _ (okFields_complete c hc fs [] h.2)
+      | false => exact exists_map _ (okFields_complete c.top (Cfg.top_pinned hc) fs [] h.2)
   | .slice _, h => by simp [okAbsent] at h
   | .map _, _ => ⟨.map .nil, by simp [absentRequired]⟩
 theorem okFields_complete (c : Cfg) (hc : c.pinned = false) :
@@ -480,9 +483,9 @@ theorem okFields_complete (c : Cfg) (hc : c.pinned = false) :
     unfold okFields at h
     simp only [Bool.and_eq_true] at h
     have hrep : c.repaired = c := by cases c; simp_all [Cfg.repaired]
-    obtain ⟨v, hv⟩ := fieldCore_complete (wv := fun o j => withValue c o t j) (ar := fun _ => absentRequired c t)
+    obtain ⟨v, hv⟩ := fieldCore_complete (wv := fun o j => withValue c.nest o t j) (ar := fun _ => absentRequired c t)
       (dv := defaultVal c t) (z := zero t) hc
-      (fun om j hj => okTy_complete c hc t om j hj)
+      (fun om j hj => okTy_complete c.nest (Cfg.nest_pinned hc) t om j hj)
       (fun ha => okAbsent_complete c hc t ha)
       (fun d hd => by
         rw [hrep] at hd
